@@ -40,6 +40,7 @@ var (
 	pkgsFlag = flag.String("pkgs", "pkg/scheduler,pkg/runner,pkg/executor,pkg/output,pkg/variables,pkg/task,pkg/utils,internal/watch,internal/config", "packages to instrument (relative to repo)")
 	execShim = flag.String("execshim", "pkg/scheduler", "packages whose os/exec import is replaced by vexec")
 	noInst   = flag.Bool("noinst", false, "do not rewrite packages (overlay only adds virtual packages)")
+	logPts   = flag.Bool("logpoints", false, "every logging call (logrus) in an instrumented package is preceded by a scheduling point: a log call takes a lock and does I/O, it is a visible operation")
 	extPkgs  = flag.String("extpkgs", "", "comma separated import paths of third-party packages to instrument as well (files in the module cache are replaced through the overlay)")
 	virt     multi // srcdir=relative/virtual/dir
 	inject   multi // srcfile=relative/dest/file (in-package test helpers)
@@ -451,6 +452,19 @@ func (r *rewriter) calleeIs(c *ast.CallExpr, pkg, name string) bool {
 	return obj.Pkg().Path() == pkg && obj.Name() == name
 }
 
+// isLogCall: a call of a package-level function of logrus or of a method of one of its types.
+func (r *rewriter) isLogCall(c *ast.CallExpr) bool {
+	sel, ok := c.Fun.(*ast.SelectorExpr)
+	if !ok {
+		return false
+	}
+	obj := r.pkg.TypesInfo.Uses[sel.Sel]
+	if obj == nil || obj.Pkg() == nil {
+		return false
+	}
+	return obj.Pkg().Path() == "github.com/sirupsen/logrus"
+}
+
 func (r *rewriter) isBuiltin(c *ast.CallExpr, name string) bool {
 	id, ok := c.Fun.(*ast.Ident)
 	if !ok || id.Name != name {
@@ -595,6 +609,13 @@ func (r *rewriter) run() {
 		return true
 	}, func(c *astutil.Cursor) bool {
 		switch n := c.Node().(type) {
+		case *ast.ExprStmt:
+			if *logPts && c.Index() >= 0 {
+				if call, ok := n.X.(*ast.CallExpr); ok && r.isLogCall(call) {
+					r.needVrt = true
+					c.InsertBefore(&ast.ExprStmt{X: r.call("Point")})
+				}
+			}
 		case *ast.GoStmt:
 			c.Replace(r.rewriteGo(n))
 		case *ast.CallExpr:
